@@ -119,7 +119,7 @@ impl Shared {
         let dl = self.sub_dl.get(sub).copied().unwrap_or(10);
         let list = self.deliveries.entry(sub.to_string()).or_default();
         for r in recvs {
-            list.push(Del { ack_id: r.ack_id.clone(), nominal_deadline: t + dl * 1_000_000_000 });
+            list.push(Del { ack_id: r.ack_id.clone(), nominal_deadline: t.saturating_add(dl.saturating_mul(1_000_000_000)) });
         }
     }
 }
@@ -909,14 +909,33 @@ impl Interp {
     }
 
     async fn goto(&mut self, sub: &str, d: u16, delta_us: i64) {
+        self.goto_impl(sub, Some(d), 0, delta_us).await
+    }
+
+    async fn goto_impl(&mut self, sub: &str, d: Option<u16>, back: u8, delta_us: i64) {
         let target = {
             let sh = self.sh.lock().unwrap();
             let l = match sh.deliveries.get(sub) {
                 Some(l) if !l.is_empty() => l,
                 _ => return,
             };
-            let del = &l[l.len() - 1 - pick(d, l.len())];
-            let base = del.nominal_deadline as i128 + delta_us as i128 * 1000;
+            let del = match d {
+                Some(d) => &l[l.len() - 1 - pick(d, l.len())],
+                None => &l[l.len() - 1 - (back as usize).min(l.len() - 1)],
+            };
+            let reference = match d {
+                Some(_) => del.nominal_deadline as i128,
+                // the deadline as the server rounds it
+                None => {
+                    let nominal = sh.t0 + Duration::from_nanos(del.nominal_deadline);
+                    AckDeadline::new(&nominal).time().checked_duration_since(sh.t0).map(|x| x.as_nanos() as i128).unwrap_or(del.nominal_deadline as i128)
+                }
+            };
+            // (a deadline centuries away - ack deadlines of 68 years chained by probes - is not visited)
+            if del.nominal_deadline > (1u64 << 62) {
+                return;
+            }
+            let base = reference + delta_us as i128 * 1000;
             if base <= sh.now() as i128 {
                 return;
             }
@@ -1094,6 +1113,9 @@ impl Interp {
                 self.sh.lock().unwrap().push(EvKind::Clock);
             }
             Op::GoTo { s, d, delta_us } => self.goto(&s.name(), *d, *delta_us).await,
+            Op::GoToActual { s, back, delta_us } => {
+                self.goto_impl(&s.name(), None, *back, *delta_us).await;
+            }
             Op::Abort { c } => {
                 self.gc();
                 if self.pending.is_empty() {
